@@ -22,6 +22,10 @@ def run(job: Dict[str, Any]) -> Dict[str, Any]:
     args = job["args"]
     out: Dict[str, Any] = {}
     B = h.B(job["tier"])
+    from engine import api
+
+    api.CURRENT.clear()
+    api.CURRENT.update(B)
     try:
         out["pre"] = bool(h.pre(B, **args))
     except Exception as e:  # noqa: BLE001
